@@ -197,6 +197,48 @@ fn main() {
 			};
 			h.go(&sys, &Limits::depth(if thorough { 8 } else { 6 }).wall_secs(60), true);
 		}
+		// (b0) every length, a flat stream with one BURST (compensated bumps, zero-sum pairs, ramps, plateaus):
+		// every position for the lengths up to 32, the positions around the window ends and its middle above
+		{
+			let mut ns: Vec<usize> = (min..=maxn).collect();
+			if std::env::var("VERIF_WIDE").as_deref() == Ok("1") {
+				ns.retain(|n| *n <= 16 || [63, 64, 127, 128, 253, 254].contains(n));
+			}
+			let mk = |ns: Vec<usize>, tag: &str, positions: Option<fn(usize) -> Vec<u32>>| Burst {
+				sys: MSys {
+					name: format!("{name}/burst/{tag}"),
+					spec: spec(name),
+					params: ns.iter().map(|n| Params::N(*n as PeriodType)).collect(),
+					v0s: vals(&[10.0, -3.0]),
+					alphabet: vec![],
+					mk_ref: mk_ref(name),
+					shape: Shape::Free,
+					span: n_of,
+					keyed: false,
+					positions: None,
+					check_peek: true,
+					extra: None,
+				},
+				patterns: burst_patterns(),
+				positions,
+			};
+			let small: Vec<usize> = ns.iter().copied().filter(|n| *n <= if thorough { 64 } else { 24 }).collect();
+			if !thorough {
+				ns.retain(|n| *n <= 40 || [63, 64, 100, 127, 128, 200, 253, 254].contains(n));
+			}
+			h.go(&mk(small, "every-position", None), &Limits::deviation(1, 4000).wall_secs(300), true);
+			h.go(
+				&mk(ns, "positions-around-the-window-ends", Some(|n| {
+					let n = n as u32;
+					let mut v = vec![0, 1, 2, n / 2 - n.min(2) / 2, n / 2, n / 2 + 1, n.saturating_sub(4), n.saturating_sub(3), n.saturating_sub(2), n.saturating_sub(1), n, n + 1];
+					v.sort_unstable();
+					v.dedup();
+					v
+				})),
+				&Limits::deviation(1, 4000).wall_secs(300),
+				true,
+			);
+		}
 		// (b) every length, flat base with deviations
 		let mut ns: Vec<usize> = (min..=maxn).collect();
 		if std::env::var("VERIF_WIDE").as_deref() == Ok("1") {
